@@ -20,7 +20,7 @@ FUNCTIONS = ["ak.color._ColorConfColorDescr.__init__", "ak.color._ColorConfColor
              "ak.color.Palette._prepare_local_colors", "ak.color.Palette._sync_with_config", "ak.color.set_global_colors_config", "ak.color._PaletteMeta.__call__"]
 BOUNDS = {
     "quick": {"ids": "3 ids (one dotted / nested-dict form) + references to a built-in id and to a never-registered id; chains up to length 3, acyclic",
-              "descriptions": "middle id: parent from 5 choices x foreground from {absent, '-', name, 196, g5, (1,2,3)} x modifiers from 3 sets, background from 3 forms in a second shard; "
+              "descriptions": "middle id: parent from 5 choices x foreground from {absent, '-', name, 196, 0, g5, (1,2,3)} x modifiers from 3 sets, background from 3 forms in a second shard; "
                               "the two other ids from 6 representative descriptions each",
               "registration": "8 splits: all explicit; one component; each id in its own component in all 6 orders; + one id defined both explicitly and by a later component; no_color twin"},
 }
@@ -30,8 +30,8 @@ STUBS = []
 ASSUMPTIONS = ["formatters are compared through the text they emit for a sample string (the numeric colour mapping itself is C09's subject)"]
 
 IDS = ["XA", "XG.B", "XC"]
-FG = ["", "-", "RED", "196", "g5", "( 1,2, 3)"]
-BG = ["", "-", "BLUE", "g5"]
+FG = ["", "-", "RED", "196", "g5", "( 1,2, 3)", "0"]
+BG = ["", "-", "BLUE", "g5", "0"]
 MODS = [[], ["bold"], ["no_bold", "crossed"], ["bold", "crossed"], ["no_crossed", "underline"]]
 PARENTS = ["none", "WARN", "XUNK", "prev", "next"]
 SMALL = [(0, 2, 0, 1), (0, 0, 1, 0), (4, 1, 0, 2), (4, 0, 2, 0), (2, 2, 0, 0), (1, 0, 0, 3)]     # (parent, fg, bg, mods)
@@ -232,7 +232,7 @@ def jobs(tier: str) -> List[Job]:
     for sp in range(len(SPLITS)):
         js.append(Job(__name__, "h_config", shard={"bg": [0], "mods": [0, 1, 2], "split": sp, "no_color": False, "nsmall": 4}, budget_s=100, label=f"config:fg+mods:split{sp}", must_exhaust=True))
     for sp in (0, 2, 5, 7):
-        js.append(Job(__name__, "h_config", shard={"bg": [1, 2, 3], "mods": [0], "split": sp, "no_color": False, "nsmall": 4}, budget_s=100, label=f"config:bg:split{sp}", must_exhaust=True))
+        js.append(Job(__name__, "h_config", shard={"bg": [1, 2, 3, 4], "mods": [0], "split": sp, "no_color": False, "nsmall": 4}, budget_s=100, label=f"config:bg:split{sp}", must_exhaust=True))
     for sp in (3, 6):
         js.append(Job(__name__, "h_config", shard={"bg": [0, 2], "mods": [0, 3, 4], "split": sp, "no_color": False, "nsmall": 6, "p1": 4}, budget_s=100, label=f"config:all-small:split{sp}", must_exhaust=True))
     js.append(Job(__name__, "h_config", shard={"bg": [0, 1], "mods": [0, 1], "split": 7, "no_color": True, "p1": 3}, budget_s=100, label="config:no_color", must_exhaust=True))
